@@ -115,6 +115,16 @@ private:
     chrono::day _d;
 };
 
+constexpr year_month_day_last::operator sys_days() const noexcept
+{
+    return static_cast<sys_days>(year_month_day{year(), month(), day()});
+}
+
+constexpr year_month_day_last::operator local_days() const noexcept
+{
+    return static_cast<local_days>(year_month_day{year(), month(), day()});
+}
+
 [[nodiscard]] constexpr auto operator==(year_month_day const& lhs, year_month_day const& rhs) noexcept -> bool
 {
     return lhs.year() == rhs.year() and lhs.month() == rhs.month() and lhs.day() == rhs.day();
